@@ -381,6 +381,65 @@ pub fn run() {
     cross.push(format!("{}Loop:\n JR loop\n", HDR));
     cross.push(format!("{} DEC (R0)\n DEC ((R1+))\n DEC 5\n", HDR));
     let (spawned, proc_accepted) = process_level(&cross, &mut ctx);
+    // ---- the interactive front-end's way of loading (start-up program, `load` command, listing pane) ----
+    let mut listed = 0u64;
+    match std::env::var("VERIF_TUI") {
+        Ok(tui_bin) if std::path::Path::new(&tui_bin).exists() => {
+            let mut texts: Vec<String> = vec![];
+            texts.extend(corpus::char_class_programs());
+            texts.extend(sentences.iter().step_by(if quick { 60 } else { 7 }).cloned());
+            texts.extend(corpus::label_programs().into_iter().step_by(3));
+            texts.extend(repo.iter().cloned());
+            texts.extend(corpus::long_programs().into_iter().filter(|t| t.len() < 60_000));
+            // comments and labels of every length with multi-byte characters at every byte offset
+            for n in 0..=90usize {
+                for fill in ["ä", "語", "😀", "x"] {
+                    texts.push(format!("{} LD R0, (0xFC) ; {}{}\n", HDR, "a".repeat(n % 4), fill.repeat(n)));
+                    texts.push(format!("{}L{}: ; {}{}\n NOP ;{}\n", HDR, n, "b".repeat(n % 3), fill.repeat(n), fill.repeat(90 - n)));
+                    texts.push(format!("{}; {}{}\n", HDR, "c".repeat(n % 5), fill.repeat(n)));
+                }
+            }
+            texts.retain(|t| layout_class(t) == "fits");
+            texts.sort();
+            texts.dedup();
+            let dir = std::env::temp_dir().join(format!("verif-c06-tui-{}", std::process::id()));
+            let _ = std::fs::create_dir_all(&dir);
+            for (i, t) in texts.iter().enumerate() {
+                let _ = std::fs::write(dir.join(format!("p{:05}.asm", i)), t);
+            }
+            listed = texts.len() as u64;
+            match mc::output_with_timeout(std::process::Command::new(&tui_bin).arg("C06-LISTING").arg(&dir), 600) {
+                Ok(Some(o)) => {
+                    let out = String::from_utf8_lossy(&o.stdout).to_string();
+                    let mut seen = 0u64;
+                    for l in out.lines().filter(|l| l.starts_with("LISTING ")) {
+                        seen += 1;
+                        let mut it = l.splitn(4, ' ');
+                        let (_, file, verdict, rest) = (it.next(), it.next().unwrap_or(""), it.next().unwrap_or(""), it.next().unwrap_or(""));
+                        let idx: usize = file.trim_start_matches('p').trim_end_matches(".asm").parse().unwrap_or(0);
+                        let src = texts.get(idx).cloned().unwrap_or_default();
+                        match verdict {
+                            "ok" => {}
+                            "refused" => ctx.violation("tui/refuses-an-accepted-program", "the interactive front-end refuses to load a program the parser accepts", case_line(&src)),
+                            "panic" => {
+                                let site = rest.split(':').next().unwrap_or("").to_string();
+                                ctx.violation(format!("tui/panic/{}", site), format!("loading an accepted program the way the interactive front-end does (start-up program, `load`, listing pane) panics at {}", rest), case_line(&src));
+                            }
+                            _ => ctx.violation("tui/load-differs", format!("loading through the interface: {}", rest), case_line(&src)),
+                        }
+                    }
+                    if seen != listed {
+                        ctx.machinery_error(format!("the TUI listing stage answered for {} of {} files (exit {:?}): {}", seen, listed, o.status.code(), String::from_utf8_lossy(&o.stderr).lines().last().unwrap_or("")));
+                    }
+                }
+                Ok(None) => ctx.machinery_error("the TUI listing stage did not finish within 600 s"),
+                Err(e) => ctx.machinery_error(format!("cannot run the TUI listing stage: {}", e)),
+            }
+            let _ = std::fs::remove_dir_all(&dir);
+        }
+        _ => ctx.machinery_error("VERIF_TUI (the TUI harness binary) is not available"),
+    }
+    ctx.set("programs_loaded_through_the_interface", listed);
     ctx.set("evaluations", all.n);
     ctx.set("distinct_nontrivial", all.accepted);
     ctx.set("rule", "every enumerated source text goes parse -> Translator::compile -> Machine::load (+ new_with_program, 12 steps, byte-code listing) under catch_unwind; distinct_nontrivial = texts accepted by the parser (the later stages ran); a cross-section additionally runs through the real binary: `verify` exit 0 implies `run` does not die by panic");
